@@ -188,6 +188,21 @@ def check(ctx):
     bad = ctx.judge("SysSyncTrace", [t1b], label="SysSyncNdebug")
     for b in bad: b["driver"] = "drv_sync_ndebug"
     ctx.report(bad)
+    # 2c. long queue histories on an AddressSanitizer build: a few hundred items through one safe_queue (its std::deque releases a node
+    # after every 128th int - what pop() returns must not live in the node it has just released)
+    drv_asan = ctx.cxx("drv_sync_asan", srcs, san="asan")
+    lq = []
+    for i in range(6 if ctx.thorough else 2):
+        np_ = 2 + i % 2; per = 70 + 10 * i
+        lq.append("R sync %d" % (np_ + 1))
+        for t in range(1, np_ + 1):
+            lq += ["P %d push %d" % (t, t * 1000 + j) for j in range(per)]
+        lq += ["P %d pop" % (np_ + 1)] * (np_ * per)
+        lq.append("GO %d log %d" % (ctx.rng.randrange(1, 1 << 30), ctx.rng.choice([0, 5])))
+    t1c = ctx.drive(drv_asan, lq, "sync_longqueue", timeout=900, env={"VERIF_OP_TIMEOUT": "0"}, par=2, lines_per_proc=100)
+    bad = ctx.judge("SysSyncTrace", [t1c], label="SysSyncLongQueue")
+    for b in bad: b["driver"] = "drv_sync_asan"
+    ctx.report(bad)
     # 3. the same programs under ThreadSanitizer (no logging: the log lock would hide races)
     ts = []
     for i, p in enumerate(programs(ctx.rng, 2500 if ctx.thorough else 80)):
